@@ -3,6 +3,8 @@ package main
 // C12 - ECDSA key blinding is consistent, invertible, commutative and context-bound.
 
 import (
+	"go/types"
+	"strconv"
 	"fmt"
 	"go/constant"
 	"go/token"
@@ -79,9 +81,38 @@ func c12(p *Prog, r *Report) {
 			if len(table) != 4 {
 				probs = append(probs, fmt.Sprintf("%d curves supported, expected 4", len(table)))
 			}
-			if he, ok := hashArg.(*ssa.Extract); ok {
-				if c, ok := he.Tuple.(*ssa.Call); ok && !s.factsHaveCallSuccess(exp[0].Block(), c) {
+			tupleOf := func(v ssa.Value) ssa.Value {
+				if x, _, ok := structFieldOf(v); ok {
+					v = x
+				}
+				if e, ok := v.(*ssa.Extract); ok {
+					return e.Tuple
+				}
+				return nil
+			}
+			switch src := tupleOf(hashArg).(type) {
+			case *ssa.Call:
+				if !s.factsHaveCallSuccess(exp[0].Block(), src) {
 					probs = append(probs, "the selected parameters are used without the selector having accepted the curve")
+				}
+			case *ssa.Lookup:
+				okHit := false
+				for _, a := range s.ff.At(exp[0].Block()) {
+					if a.Kind == Truth && a.Pol {
+						if ex, ok := a.V.(*ssa.Extract); ok && ex.Tuple == ssa.Value(src) && ex.Index == 1 {
+							okHit = true
+						}
+					}
+				}
+				if !okHit {
+					probs = append(probs, "the table entry is used without the lookup having found the curve")
+				}
+				if ld, ok := src.X.(*ssa.UnOp); ok {
+					if g, ok := ld.X.(*ssa.Global); ok {
+						if why, mut := p.mutableGlobals()[g]; mut {
+							probs = append(probs, "the parameter table is mutable package-level state: "+why)
+						}
+					}
 				}
 			}
 			r.Check(len(probs) == 0, R1, "curve -> (hash, L) table", p.Pos(hb.Pos()), strings.Join(rows, " "), strings.Join(probs, "; ")+" ["+strings.Join(rows, " ")+"]")
@@ -197,6 +228,95 @@ func c12(p *Prog, r *Report) {
 // name == <const>.
 func curveTable(s *Sym, hashV, lV ssa.Value) map[string][2]int64 {
 	out := map[string][2]int64{}
+	// the table as data: a struct per curve, selected by a function
+	// (suite, ok) := f(name) or looked up in a package-level map literal that
+	// nothing writes after initialisation; hash and L are two fields of it
+	if hx, hField, ok := structFieldOf(hashV); ok {
+		if lx, lField, ok := structFieldOf(lV); ok && lx == hx {
+			if ex, ok := hx.(*ssa.Extract); ok && ex.Index == 0 {
+				st, _ := hx.Type().Underlying().(*types.Struct)
+				if st == nil {
+					return out
+				}
+				hName, lName := st.Field(hField).Name(), st.Field(lField).Name()
+				entry := func(name string, t *Term) {
+					if t.Op != "struct" {
+						out["<non-literal entry>"] = [2]int64{-1, -1}
+						return
+					}
+					h, l := structField(t, hName), structField(t, lName)
+					if h == nil || l == nil || h.Op != "const" || l.Op != "const" {
+						out["<non-constant entry>"] = [2]int64{-1, -1}
+						return
+					}
+					hv, e1 := strconv.ParseInt(h.Name, 10, 64)
+					lv, e2 := strconv.ParseInt(l.Name, 10, 64)
+					if e1 != nil || e2 != nil {
+						out["<non-constant entry>"] = [2]int64{-1, -1}
+						return
+					}
+					out[name] = [2]int64{hv, lv}
+				}
+				switch src := ex.Tuple.(type) {
+				case *ssa.Call:
+					if f := src.Call.StaticCallee(); f != nil && InModule(f) && f.Blocks != nil {
+						ch := s.child(f)
+						s.bindArgs(ch, f, src.Call.Args, src)
+						for _, rp := range ch.ff.RetPoints(verdictIndex(f)) {
+							if rp.Outcome == Fails || len(rp.Vals) < 1 {
+								continue
+							}
+							for _, a := range rp.Facts {
+								if a.Kind != Truth || !a.Pol {
+									continue
+								}
+								bo, ok := a.V.(*ssa.BinOp)
+								if !ok || bo.Op != token.EQL {
+									continue
+								}
+								if k, ok := bo.Y.(*ssa.Const); ok && k.Value != nil && k.Value.Kind() == constant.String {
+									entry(k.Value.ExactString(), ch.objAt(rp.Vals[0], rp.Ret))
+									break
+								}
+							}
+						}
+					}
+				case *ssa.Lookup:
+					if ld, ok := src.X.(*ssa.UnOp); ok && src.CommaOk {
+						if g, ok := ld.X.(*ssa.Global); ok && InModulePkg(g) {
+							if initFn := g.Pkg.Func("init"); initFn != nil {
+								is := s.prog.NewSym(initFn)
+								var m ssa.Value
+								stores := 0
+								for _, b := range initFn.Blocks {
+									for _, in := range b.Instrs {
+										if st, ok := in.(*ssa.Store); ok && st.Addr == ssa.Value(g) {
+											m = st.Val
+											stores++
+										}
+									}
+								}
+								if stores == 1 && m != nil {
+									for _, b := range initFn.Blocks {
+										for _, in := range b.Instrs {
+											if mu, ok := in.(*ssa.MapUpdate); ok && mu.Map == m {
+												if k, ok := mu.Key.(*ssa.Const); ok && k.Value != nil && k.Value.Kind() == constant.String {
+													entry(k.Value.ExactString(), is.objAt(mu.Value, mu))
+												} else {
+													out["<non-constant key>"] = [2]int64{-1, -1}
+												}
+											}
+										}
+									}
+								}
+							}
+						}
+					}
+				}
+				return out
+			}
+		}
+	}
 	// the table moved into a selector function: (hash, L, ok) := f(name)
 	if he, ok := hashV.(*ssa.Extract); ok {
 		if le, ok := lV.(*ssa.Extract); ok && le.Tuple == he.Tuple {
@@ -265,4 +385,38 @@ func curveTable(s *Sym, hashV, lV ssa.Value) map[string][2]int64 {
 		}
 	}
 	return out
+}
+
+// structFieldOf: v is field i of a struct value x - either x.f on the value
+// itself, or a load of &local.f where the local holds x (stored exactly once).
+func structFieldOf(v ssa.Value) (x ssa.Value, field int, ok bool) {
+	switch f := v.(type) {
+	case *ssa.Field:
+		return f.X, f.Field, true
+	case *ssa.UnOp:
+		if f.Op != token.MUL {
+			return nil, 0, false
+		}
+		fa, isFA := f.X.(*ssa.FieldAddr)
+		if !isFA {
+			return nil, 0, false
+		}
+		al, isAl := fa.X.(*ssa.Alloc)
+		if !isAl {
+			return nil, 0, false
+		}
+		var val ssa.Value
+		n := 0
+		for _, r := range *al.Referrers() {
+			if st, isSt := r.(*ssa.Store); isSt && st.Addr == ssa.Value(al) {
+				n++
+				val = st.Val
+			}
+		}
+		if n != 1 {
+			return nil, 0, false
+		}
+		return val, fa.Field, true
+	}
+	return nil, 0, false
 }
